@@ -46,8 +46,23 @@ def jdefault(o: Any) -> Any:
     return repr(o)
 
 
+def jsonable(o: Any) -> Any:
+    """Recursively make a witness JSON-able (non-string dict keys, sets, tuples, exotic objects)."""
+    if isinstance(o, dict):
+        return {(k if isinstance(k, str) else repr(k)): jsonable(v) for k, v in o.items()}
+    if isinstance(o, (list, tuple)):
+        return [jsonable(v) for v in o]
+    if isinstance(o, (set, frozenset)):
+        return sorted((jsonable(v) for v in o), key=repr)
+    if isinstance(o, float) and (o != o or o in (float("inf"), float("-inf"))):
+        return repr(o)
+    if isinstance(o, (str, int, float, bool)) or o is None:
+        return o
+    return jdefault(o)
+
+
 def canon_hash(obj: Any) -> str:
-    s = json.dumps(obj, sort_keys=True, default=jdefault, separators=(",", ":"))
+    s = json.dumps(jsonable(obj), sort_keys=True, default=jdefault, separators=(",", ":"))
     return hashlib.sha256(s.encode()).hexdigest()[:16]
 
 
@@ -91,7 +106,7 @@ class Run:
         if nontrivial:
             self.distinct.add(canon if isinstance(canon, str) and len(canon) == 16 else canon_hash(canon))
         if sample is not None and len(self.samples) < self.max_samples:
-            self.samples.append(sample)
+            self.samples.append(jsonable(sample))
 
     def count(self, name: str, n: int = 1) -> None:
         self.counters[name] += n
@@ -121,7 +136,7 @@ class Run:
             "what": what,
             "tier": self.tier,
             "seed": self.seed,
-            "witness": witness,
+            "witness": jsonable(witness),
         }
         h = canon_hash(body)
         path = os.path.join(REPLAY_DIR, f"{self.pid}-{h}.json")
